@@ -70,7 +70,7 @@ Outcome(e) ==
       [] e.op = "gettop" -> (IF e.rv = <<"n", A!GetTop(L)>> THEN Ok(stk) ELSE Bad("read"))
       [] e.op = "settop" -> (IF A!SetTopExact(L, e.i) THEN Ok(WithL(A!SetTop(L, e.i))) ELSE Bound(e))
       [] e.op = "insert" ->
-           (IF A!InsertExcluded(L, e.i) THEN Undef("insert")
+           (IF A!InsertExcluded(L, e.i) THEN Bound(e)      \* beyond top+1: any hole-free list
             ELSE IF A!InsertExact(L, e.i)
                  THEN (LET c == {x \in A!InsertResults(L, e.v, e.i) : SameList(x, e.list)} IN
                        IF c = {} THEN Bad("list") ELSE Ok(WithL(CHOOSE x \in c : TRUE)))
